@@ -6,7 +6,7 @@ from ..lib import call
 from .c05 import deviation_ok
 
 PROP = "C06"
-PLAN = {"quick": (1400, 300), "thorough": (80000, 3600)}
+PLAN = {"quick": (1400, 300), "thorough": (20000, 3600)}
 LARGE = (0.02, 19)  # (share, largest size) of the large class of gen.kv: 17+ control points, degree up to 8
 STEP_BUDGET = 20_000_000  # loop line events per outermost call: ten times the default, for the large class
 RULE = ("case = (curve, t, regime, via method|setter); regimes: elevate (p<=4, t in 1..3: Bezier, multi-span, mixed "
